@@ -1,5 +1,6 @@
 import TinodeVerif.Props.C03
 import TinodeVerif.Props.C14
+import TinodeVerif.Model.Preview
 /-!
 C13 (the part a model can carry) — every request other than a note is answered; ill-formed or non-existent topic names get
 an error code, not silence.
@@ -106,5 +107,43 @@ theorem invalid_note_silent (c : Ctx) (a : Actor) (tn : TName) (what : String) (
 theorem leave_unanswered_witness :
     (({ w := { sess := [C14.wS], live := [C14.wT] } } : Ctx).opLeave C14.wA "T1" false).frames = [] :=
   C14.root_leave_on_behalf_unanswered
+
+/-! ### message content rendered into a push preview (push/fcm/payload.go:46-58) -/
+open Tinode.Preview in
+/-- short strings - at most 128 bytes - are passed through -/
+theorem preview_short_unchanged (bs : List Nat) (h : bs.length ≤ maxLen) : preview bs = bs := by
+  unfold preview
+  have : ¬ bs.length > maxLen := by omega
+  simp [this]
+
+open Tinode.Preview in
+/-- a string of more than 128 bytes but at most 128 runes (multi-byte text) is passed through: nothing is sliced -/
+theorem preview_few_runes_unchanged (bs : List Nat) (h : (decode bs).length ≤ maxLen) : preview bs = bs := by
+  unfold preview
+  split
+  · have : ¬ (decode bs).length > maxLen := by omega
+    simp [this]
+  · rfl
+
+open Tinode.Preview in
+/-- otherwise the preview is the first 128 runes - the slice is always within bounds - re-encoded, plus an ellipsis -/
+theorem preview_long_cut (bs : List Nat) (h1 : bs.length > maxLen) (h2 : (decode bs).length > maxLen) :
+    preview bs = encode ((decode bs).take maxLen) ++ ellipsis ∧ ((decode bs).take maxLen).length = maxLen := by
+  unfold preview
+  rw [if_pos h1]
+  simp only [h2, if_true]
+  exact ⟨trivial, by rw [List.length_take]; omega⟩
+
+open Tinode.Preview in
+/-- every byte string has a preview: the three cases above are exhaustive -/
+theorem preview_cases (bs : List Nat) :
+    preview bs = bs ∨ (preview bs = encode ((decode bs).take maxLen) ++ ellipsis ∧ (decode bs).length > maxLen) := by
+  by_cases h1 : bs.length > maxLen
+  · by_cases h2 : (decode bs).length > maxLen
+    · exact Or.inr ⟨(preview_long_cut bs h1 h2).1, h2⟩
+    · exact Or.inl (preview_few_runes_unchanged bs (by omega))
+  · exact Or.inl (preview_short_unchanged bs (by omega))
+
+example : Tinode.Preview.decode [0xD0, 0x96, 0x41, 0xFF, 0xE2, 0x82, 0xAC, 0xF0, 0x9F, 0x98, 0x80] = [0x416, 0x41, 0xFFFD, 0x20AC, 0x1F600] := by decide
 
 end Tinode.Props.C13
